@@ -283,6 +283,43 @@ func init() {
 		h.pos = save
 		return tuple{len(b), iface{}}
 	}
+	intrinsics["(*os.File).ReadFrom"] = func(fr *frame, args []value) value {
+		h := fr.handleOf(args[0])
+		src := args[1].(iface)
+		var readFn *ssa.Function
+		ms := fr.i.prog.MethodSets.MethodSet(src.t)
+		for k := 0; k < ms.Len(); k++ {
+			if sel := ms.At(k); sel.Obj().Name() == "Read" {
+				readFn = fr.i.prog.MethodValue(sel)
+			}
+		}
+		if readFn == nil {
+			panic(pathEnd{StUnsupported, "os.File.ReadFrom: source without Read"})
+		}
+		total := int64(0)
+		for {
+			buf := make([]value, 512)
+			for i := range buf {
+				buf[i] = uint8(0)
+			}
+			r := call(fr.i, fr, token.NoPos, readFn, []value{src.v, buf}).(tuple)
+			n := int(asInt64(r[0]))
+			if n > 0 {
+				h.write(fr.p.FS(), buf[:n])
+				total += int64(n)
+			}
+			if err := r[1].(iface); err.t != nil {
+				eof := fr.ioEOF().(iface)
+				if types.Identical(err.t, eof.t) && err.v == eof.v {
+					return tuple{total, iface{}}
+				}
+				return tuple{total, err}
+			}
+			if n == 0 {
+				return tuple{total, iface{}}
+			}
+		}
+	}
 	intrinsics["(*os.File).Seek"] = func(fr *frame, args []value) value {
 		h := fr.handleOf(args[0])
 		if h.closed {
